@@ -233,10 +233,10 @@ def locate(bb, ids, lim, flags, pep, added, dropped, orig_ids):
         pos = None
         for fr in range(3):
             aa = translate(full[fr:])
-            aa_u = aa
-            k = aa_u.replace('U', '*').find(pep.replace('U', '*')) if 'U' in pep else aa.find(pep)
-            if k == -1 and pep and aa.find(pep[1:]) > 0 and False:
-                pass
+            import re as _re
+            pat = ''.join('[FW]' if c == 'F' else ('[U*]' if c == 'U' else c) for c in pep)
+            m = _re.search(pat, aa)
+            k = m.start() if m else -1
             if k != -1:
                 pos = (fr + 3 * k, fr + 3 * (k + len(pep)))
                 break
@@ -339,6 +339,11 @@ def mech_missing(o, p):
         return False
     if all(start_anchor(bb, h) for bb, h in W):
         return 'KF-START-ANCHOR'
+    flags = o['flags']
+    if flags.sect and all(bb.end_nf for bb, _ in W):
+        f2 = orc.Flags(False, flags.w2f, flags.coding_novel_orf, flags.max_adjacent)
+        if not any(p in orc.backbone_peptides(bb, h, o['lim'], f2, True, 1e-3) for bb, h in W):
+            return 'KF-SECT-ENDNF'
     return None
 
 
